@@ -186,6 +186,11 @@ def compare_traces(ra, rb, props, oracle, world_a, client=None, compare_draws=Tr
         if res_a.status == "ok":
             da, db = runner.ret_digest(ra.world, res_a.ret), runner.ret_digest(rb.world, res_b.ret)
             if r["do"] in ("measure", "povm") and da != db:
+                if compare_draws and _compare_draw_lists(_all_draws(res_a), _all_draws(res_b)) is None:
+                    # the sampler saw the same distributions in both twins and only the forced choices
+                    # differ (the follower could not tell two equal distributions apart, or drew them in
+                    # another order): two legitimate branches of one program, nothing left to compare
+                    return None, None
                 return Violation(props, oracle, "twin-outcomes", cell, f"sid {sid}: {da} vs {db}"), sid
         if compare_draws:
             bad = _compare_draw_lists(_all_draws(res_a), _all_draws(res_b))
